@@ -457,3 +457,35 @@ func firstDiff(a, b *Result) string {
 	}
 	return "group sets differ"
 }
+
+// fixed case: ORDER BY with keys closer than 1.0 to each other (1.0, 1.125, ... 1.875), limit 2,
+// ascending and descending, direct and through intermediates: the answer must be the two best
+// groups by the exact comparison, whatever order the groups are pushed in.
+func fixedCloseKeys(c *core.Ctx) {
+	w := &World{TagKeys: []string{"host"}, Fields: []FieldDef{{Name: "f1", Type: field.SumField}}}
+	for h := 0; h < 8; h++ {
+		name := fmt.Sprintf("k%d", h)
+		w.Series = append(w.Series, SeriesDef{Tags: []string{name}, Hash: seriesHash(w.TagKeys, []string{name})})
+		w.Points = append(w.Points, Point{Series: h, Field: 0, Slot: 1, Val: int64(8 + (h*3)%8)}) // (8 + j)/8, all distinct
+	}
+	l := &Layout{Leaves: []*LeafDef{
+		{Name: "leafA", Shards: [][]int{{0, 1, 2}, {3}}, KnownFields: []int{0}},
+		{Name: "leafB", Shards: [][]int{{4, 5, 6, 7}}, KnownFields: []int{0}},
+	}, LeafPerm: [][]int{{1, 0}}}
+	k := 0
+	for _, desc := range []bool{false, true} {
+		for _, recv := range []int{0, 3} {
+			q := &QueryDef{Selects: []SelectDef{{"f1", function.Unknown}}, GroupBy: []int{0}, NumSlots: 4, Limit: 2,
+				OrderBy: []OrderDef{{Field: "f1", Func: function.Unknown, Desc: desc}}, ftypes: ftypesOf(w)}
+			ll := *l
+			ll.Receivers = recv
+			if recv > 0 {
+				ll.LeafPerm = [][]int{{0, 1}, {1, 0}, {0, 1}}
+				ll.RootPerm = []int{2, 0, 1}
+			}
+			runLayout(c, w, q, &ll, true, 10*k) // checkTopN inside
+			k++
+		}
+	}
+	c.NonTrivial()
+}
